@@ -319,6 +319,7 @@ func (bf *buffer) ReadPeek(n int) ([]byte, error) {
 
 	// If there's no data, then let's wait until there is some data
 	bf.ccond.L.Lock()
+	ppos = bf.pseq.get()
 	for ; cpos >= ppos; ppos = bf.pseq.get() {
 		if bf.isDone() {
 			bf.ccond.L.Unlock()
@@ -383,6 +384,7 @@ func (bf *buffer) ReadWait(n int) ([]byte, error) {
 
 	// If there's no data, then let's wait until there is some data
 	bf.ccond.L.Lock()
+	ppos = bf.pseq.get()
 	for ; next > ppos; ppos = bf.pseq.get() {
 		if bf.isDone() {
 			bf.ccond.L.Unlock()
